@@ -287,7 +287,7 @@ def step (s : DState) (line : String) : DState × List String :=
       | some c => Trig.eval s.fs { w := s.w, handles := s.handles } c
       | none => []
     let (s', res) := runCall s method args
-    let trigs := trigs ++ (Trig.evalPost { w := s'.w, handles := s'.handles }).filter (fun t => !trigs.contains t)
+    let trigs := trigs ++ (Trig.evalPost s'.fs { w := s'.w, handles := s'.handles }).filter (fun t => !trigs.contains t)
     let (s', refres) := refCall s' method args
     let s' := { s' with env := {} }
     (s', ["call\t" ++ method ++ "\t" ++ "\t".intercalate args, res] ++ observe before s' ++
